@@ -19,7 +19,7 @@ distinct; cardinality-dependent behaviour (group sizes are C02's).
 import ast
 import re
 
-from mmsa import au, boolset, cfg as cfgmod, dataflow, search
+from mmsa import au, boolset, cfg as cfgmod, dataflow, pathcond, search
 from mmsa.core import Undecided, norm, walk_no_nested
 from mmsa.types import FuncCtx
 
@@ -191,18 +191,25 @@ def r1_construction(repo, rep):
   rep.fn(f)
   g = cfgmod.CFG(f.node)
   s = f.params[0]
-  wanted = {'empty treatment': ['not %s.treatment_geos' % s, 'len(%s.treatment_geos) == 0' % s],
-            'empty control': ['not %s.control_geos' % s, 'len(%s.control_geos) == 0' % s],
-            'overlap': ['%s.treatment_geos & %s.control_geos' % (s, s), '%s.control_geos & %s.treatment_geos' % (s, s)]}
+  # (atom, truth value under which the design is rejected)
+  wanted = {'empty treatment': [('%s.treatment_geos' % s, False), ('len(%s.treatment_geos) == 0' % s, True), ('len(%s.treatment_geos) > 0' % s, False)],
+            'empty control': [('%s.control_geos' % s, False), ('len(%s.control_geos) == 0' % s, True), ('len(%s.control_geos) > 0' % s, False)],
+            'overlap': [('%s.treatment_geos & %s.control_geos' % (s, s), True), ('%s.control_geos & %s.treatment_geos' % (s, s), True),
+                        ('%s.treatment_geos.isdisjoint(%s.control_geos)' % (s, s), False), ('%s.control_geos.isdisjoint(%s.treatment_geos)' % (s, s), False)]}
   rd = dataflow.Reaching(g)
   exitdom = g.dominators(cfgmod.no_exc).get(g.exit, set())
   for what, forms in wanted.items():
     found = None
     for n_ in g.nodes:
-      if n_.kind == 'test' and norm(rd.expand(n_, n_.expr)[0]) in forms:
-        tb = [m for m, lab in g.succ[n_] if lab == 'true']
-        if tb and g.exit not in g.reachable(tb[0], cfgmod.no_exc):
-          found = n_
+      if n_.kind != 'test':
+        continue
+      ex = rd.expand(n_, n_.expr)[0]
+      for lab in ('true', 'false'):
+        dnf = pathcond.literals(ex, lab == 'true')
+        if len(dnf) == 1 and len(dnf[0]) == 1 and (norm(dnf[0][0][0]), dnf[0][0][1]) in forms:
+          tb = [m for m, l_ in g.succ[n_] if l_ == lab]
+          if tb and g.exit not in g.reachable(tb[0], cfgmod.no_exc):
+            found = n_
     rep.check(found is not None and found in exitdom, 'R1/construction', 'TBRMMDesign rejects %s' % what, f.qualname, 'guard: ' + what,
               'TBRMMDesign.__post_init__ has no dominating guard rejecting %s groups' % what, f.loc())
 
